@@ -31,7 +31,8 @@ func init() {
 			"all occur. Each sequence runs through the real evaluator with the real SVG platform (cli.WithSVG) and WriteSVG; the text must parse as XML (encoding/xml; thorough also expat via " +
 			"python); flattening <g> inheritance and root attributes must give exactly the shape list of the reference pen state machine (docs/builtins.md §Graphics): same order, one shape per " +
 			"drawing command, geometry x10 with y flipped for every kind of shape, and the stroke / fill / width / dash / linecap / font in effect at drawing time. One representative per " +
-			"command also goes through the evy run --svg-out binary. States = distinct reference pen states reached; transitions = commands executed against both.",
+			"command also goes through the evy run --svg-out binary; three drawings x seven ways a program can end (normally, exit 0/3, panic, failed test, index error, bad argument) x " +
+			"--svg-out to a file and to stdout: the complete document of what was drawn is written and the exit status is the documented one. States = distinct reference pen states reached; transitions = commands executed against both.",
 		Assumptions: []string{"colour strings are compared literally (CSS validity is the browser's business)", "the run is fenced (memory + watchdog) because an unbounded grid allocates without end"},
 		TrustedBase: []string{"reference pen state machine in /verif/mc/checks/c19.go", "encoding/xml decoder (and expat in the thorough tier) for parsing the output"},
 		Run:         runC19,
